@@ -12,6 +12,12 @@ def main():
 
     with open(sys.argv[1]) as fh:
         cfg = json.load(fh)
+    if "--resume" in sys.argv[2:]:
+        r = crash.crash_child(cfg, os.getcwd(), None, True)
+        if r["outcome"] != "completed":
+            print(r["outcome"], file=sys.stderr)
+            return 3
+        return 0
     rng_log = crash.install_rng_logger()
     r = crash.run_cfg(cfg, os.getcwd())
     with open(os.path.join(os.path.dirname(sys.argv[1]), "rnglog.json"), "w") as fh:
